@@ -83,9 +83,14 @@ def _worker(args):
                 rec.update(status=r[1], backend=r[2], seconds=r[3], model=r[4], tried=r[5])
                 if (r[1] != "unsat" or i < 1) and r[6]:
                     rec["smt2"] = r[6] if len(r[6]) < 60000 else r[6][:60000] + "\n; ... truncated"
-                if tier == "thorough" and r[1] == "unsat":
-                    r2 = solve._solve_cvc5(r[6] or solve.build_full(ob, res.str_axioms), 60)
+                if tier == "thorough" and r[1] == "unsat" and i % 4 == 0:
+                    # independent second opinion (cvc5) on a deterministic quarter of the discharged obligations; an
+                    # answer `sat` from it is reported as a solver disagreement (undecided), `unknown` is just recorded
+                    r2 = solve._solve_cvc5(r[6] or solve.build_full(ob, res.str_axioms), 20)
                     rec["second_solver"] = r2[0]
+                    if r2[0] == "sat":
+                        rec["status"] = "unknown"
+                        rec["error"] = "solver disagreement: z3 unsat, cvc5 sat"
             except Exception as e:
                 rec.update(status="error", backend="-", seconds=0.0, error="%s\n%s" % (e, traceback.format_exc()))
         out["obligations"].append(rec)
@@ -363,6 +368,7 @@ def main(argv=None):
                                           "discharged": sum(1 for o in r["obligations"] if o["status"] == "unsat"),
                                           "error": r["error"]} for r in results],
             "lemmas": [{"name": o["name"], "status": o["status"], "backend": o.get("backend")} for o in lemma_results],
+            "second_solver_cvc5": {k: sum(1 for o in all_obs if o.get("second_solver") == k) for k in ("unsat", "unknown", "sat", "error")},
             "per_backend": per_backend, "solver_seconds": round(solver_seconds, 3), "max_query_seconds": round(max_q, 3),
             "refuted": [o["name"] for o in refuted], "undecided": [o["name"] for o in undecided] + [k for k, _ in errors],
             "known_findings": [k["what"] for _, k in known_hit if k.get("property") == prop],
